@@ -222,6 +222,9 @@ func (k KeyRing) VerifyJSONs(ctx context.Context, requests []VerifyJSONRequest) 
 	}
 
 	keysFetched := map[PublicKeyLookupRequest]PublicKeyLookupResult{}
+	// The keys that came from a fetcher, as opposed to the ones that were only
+	// read from the database: these are the ones to write to the database.
+	keysToStore := map[PublicKeyLookupRequest]PublicKeyLookupResult{}
 	now := spec.AsTimestamp(time.Now())
 	for req, res := range keysFromDatabase {
 		if res.ExpiredTS != PublicKeyNotExpired {
@@ -295,6 +298,7 @@ func (k KeyRing) VerifyJSONs(ctx context.Context, requests []VerifyJSONRequest) 
 				}
 			}
 			keysFetched[req] = res
+			keysToStore[req] = res
 			delete(keyRequests, req)
 		}
 	}
@@ -316,8 +320,11 @@ func (k KeyRing) VerifyJSONs(ctx context.Context, requests []VerifyJSONRequest) 
 	// if the requests are valid.
 	k.checkUsingKeys(requests, results, keyIDs, keysFetched)
 
-	// Add the keys to the database so that we won't need to fetch them again.
-	if err := k.KeyDatabase.StoreKeys(ctx, keysFetched); err != nil {
+	// Add the keys that were fetched to the database so that we won't need to
+	// fetch them again. Entries that were only read from the database are not
+	// written back: a concurrent call may have replaced them with newer ones
+	// in the meantime.
+	if err := k.KeyDatabase.StoreKeys(ctx, keysToStore); err != nil {
 		return nil, err
 	}
 
